@@ -4,11 +4,13 @@
 #![allow(clippy::all)]
 pub mod vnd;
 pub mod h_ser;
+pub mod h_match;
 
 pub use vnd::*;
 
 /// name -> harness dispatch for the native replay binary
 pub fn run_harness(name: &str) -> bool {
     if h_ser::run(name) { return true; }
+    if h_match::run(name) { return true; }
     false
 }
